@@ -343,7 +343,11 @@ impl PeerHandler {
         if self.peer_state.keep_alive == KEEP_ALIVE_LIMIT {
             return Err(Error::KeepAliveTimeout.into());
         }
-        self.connection.send_msg(&KeepAlive::new()).await?;
+        // Handshake is the first thing sent on a connection: an accepted connection gets nothing
+        // before peer's handshake arrived (and was answered with own one)
+        if self.peer_id.is_some() {
+            self.connection.send_msg(&KeepAlive::new()).await?;
+        }
         self.peer_state.keep_alive += 1;
         Ok(())
     }
